@@ -415,6 +415,8 @@ class ParseState(object):
         if what is None:  # Root item.
             output = []
             self.parse(self.root, output)
+            # The whole text has to be consumed.
+            EOS()(self, output)
             return output[0]
         # Call the parse class
         if isinstance(what, Parser):
